@@ -85,7 +85,7 @@ def st_schedule(draw):
 
 class Fanout(Sub):
     name = "fanout"
-    examples = {"quick": 1200, "thorough": 9600}
+    examples = {"quick": 1200, "thorough": 6000}
     shards = {"quick": 16, "thorough": 16}
     rule = RULE
 
